@@ -61,6 +61,7 @@ CLAIMS = {
          'ASSUMED / not covered: the loop nest of the transform (which index pairs meet which root, iterator closures over split_at_mut) is an uninterpreted function with an assumed range contract, so that the transform equals the evaluation map, '
          'is inverted by the inverse transform and turns negacyclic convolution into pointwise products is NOT decided. '
          'Root tables (unit c09_tables): NTTTables::new, for every modulus and every degree 2..2^17, returns Ok only with q = 1 (mod 2N), a root g with g^N = -1 (mod q), root_powers[rev(i)] the Shoup operand of g^i and inv_root_powers[rev(i-1)+1] that of g^-i for every 1 <= i < N (entry 0 is 1; all indices shown in range and distinct), N^-1 mod q, and the lazy-arithmetic handler for the same modulus; is_primitive_root, try_primitive_root (random search, terminates within its round limit, never accepts a non-root) and try_minimal_primitive_root (returns the least of the odd powers g^(2k+1), k < N, of the root found, and the lemma that each of them is again a root of X^N+1) are proved against their definitions. '
+         'The twelve ntt / intt wrappers of polysmallmod.rs (unit c09_wrap: lazy and exact, one component / one polynomial / several polynomials) are proved to pass component j of every polynomial i - the window [(i*k+j)*N, (i*k+j+1)*N) - through table j and to leave every other word unchanged, with the documented input / output ranges, over the four per-table transforms as uninterpreted functions. '
          'ASSUMED: u64::reverse_bits restricted to n-bit values is an involution fixing 0 and 2^n-1; rand yields arbitrary values. Not decided: that Err is returned only when no root exists (the search is probabilistic), and that the least odd power is independent of the root found (needs the group structure), i.e. determinism across contexts.', '5 C09'),
  'C10': ('RNSTool::divide_and_round_q_last_inplace and mod_t_and_divide_q_last_inplace are proved, for every base size, degree, coefficient and canonical input, to return in each word exactly the residue formula '
          'of the algorithm (all lazy additions shown free of overflow, every slice in bounds), and two spec-level theorems give the integer reading: if the input residues are those of one integer X then each output word is '
